@@ -21,7 +21,8 @@ RULE = ('Model-based stateful testing: Hypothesis-generated histories over '
         'after every step rooms(sid) must equal the model. Non-trivial: the '
         'history has an emit to >=2 rooms sharing a member, or an emit after '
         'a leave/close/disconnect that changed the addressed set, or a '
-        'skip_sid that removes an addressed member. Distinct on the op list.')
+        'skip_sid that removes an addressed member. Distinct on the op list.'
+        ' Servers use the default or the msgpack serializer; on the asyncio server the send to one recipient of an emit can raise SocketIsClosedError (the others are served all the same).')
 ASSUMPTIONS = [
     'the personal room is modelled as a room entered at connect',
     'operations on clients that never existed are not generated (only '
